@@ -30,6 +30,21 @@ pub(crate) fn get_string_len(str: &String) -> usize {
     c_string.count_bytes() + 1 // for the nul terminator
 }
 
+/// Reads exactly `length` bytes into a buffer that grows with the data actually present, instead
+/// of reserving `length` (which comes from the file) up front like `count` does for `Vec<u8>`.
+#[binrw::parser(reader)]
+pub(crate) fn read_bytes_bounded(length: u64) -> BinResult<Vec<u8>> {
+    let mut data = Vec::new();
+    {
+        use std::io::Read;
+        reader.take(length).read_to_end(&mut data)?;
+    }
+    if data.len() as u64 != length {
+        return Err(binrw::Error::Io(std::io::ErrorKind::UnexpectedEof.into()));
+    }
+    Ok(data)
+}
+
 #[binrw::parser(reader)]
 pub(crate) fn strings_parser(
     base_offset: u64,
